@@ -130,7 +130,7 @@ public:
    */
   void clearVariable(unsigned id)
   {
-    _storage_pool[id].value = Value();
+    _storage_pool[id].value = std::move(Value().to_lvalue(true));
   }
 
   /**
@@ -366,13 +366,15 @@ private:
 
     ~MemorySlot() { delete symbol; }
 
+    /* the value bound to a symbol is an lvalue from the start, also before its
+     * first assignment: else operators would write their result into it */
     explicit MemorySlot(const Symbol& s)
     : value(s)
-    , symbol(new Symbol(s)) { }
+    , symbol(new Symbol(s)) { value.to_lvalue(true); }
 
     explicit MemorySlot(Symbol&& s)
     : value(s)
-    , symbol(new Symbol(std::move(s))) { }
+    , symbol(new Symbol(std::move(s))) { value.to_lvalue(true); }
 
     explicit MemorySlot(const MemorySlot& m)
     : value(std::move(m.value.clone().to_lvalue(true)))
